@@ -217,6 +217,46 @@ func ruleP02Diff(p *Prog, r *Report) {
 		ok := n == "Minus" && len(args) == 1 && strip(recv) == ssa.Value(f.Params[1]) && strip(args[0]) == ssa.Value(f.Params[0])
 		r.check(ok, rule, fmt.Sprintf("return#%d", i), p.instrPos(ret), "Diff(should, actual) = actual.Minus(should)", "Diff is not actual.Minus(should)")
 	}
+	// call sites: Diff(should-total of X, total of X)
+	diffSites := 0
+	for _, g := range p.srcFns {
+		for _, c := range callsTo(g, f) {
+			diffSites++
+			key := "callsite:" + fnName(g)
+			sc, _ := callOf(c.Common().Args[0])
+			tc, _ := callOf(c.Common().Args[1])
+			okS, okT, okSame := false, false, true
+			var sArg, tArg ssa.Value
+			if sc != nil && staticCallee(sc) != nil {
+				switch fnBase(staticCallee(sc)) {
+				case "ShouldTotalSum":
+					okS = true
+					sArg = sc.Common().Args[0]
+				case "NewShouldTotal":
+					okS = true
+				}
+			} else if sc != nil {
+				if n, _, _, _ := methodCallOf(sc); n == "ShouldTotal" {
+					okS = true
+				}
+			}
+			if tc != nil && staticCallee(tc) != nil && fnBase(staticCallee(tc)) == "Total" {
+				okT = true
+				tArg = tc.Common().Args[0]
+			} else if tc != nil {
+				if n, _, _, _ := methodCallOf(tc); n == "Plus" || n == "Duration" {
+					okT = true
+				}
+			}
+			if sArg != nil && tArg != nil {
+				okSame = sameValue(sArg, tArg) || sameSliceSource(sArg, tArg)
+			}
+			r.check(okS && okT && okSame, rule, key, p.instrPos(c), "Diff(should-total, total) of the same records", "Diff is not called as Diff(should-total of X, total of X)")
+		}
+	}
+	if diffSites < 4 {
+		r.undecided(rule, "floor:callsites", "-", "found %d call sites of service.Diff, expected at least 4", diffSites)
+	}
 	// Minus(d) = Plus(-d) ; Plus adds minutes
 	minus := p.method("klog", "duration", "Minus")
 	plus := p.method("klog", "duration", "Plus")
@@ -505,4 +545,23 @@ func ruleP02Close(p *Prog, r *Report) {
 	}
 	r.check(seen[0] && seen[-1], rule, "end-time:rows", p.pos(sel.Pos()), "rows for the reference day and the day before present", "missing row for the reference day or the day before")
 	r.check(sawErr, rule, "end-time:otherwise", p.pos(sel.Pos()), "any other record date -> error", "records of other dates are not refused")
+}
+
+// sameSliceSource: both variadic arguments are the same slice value or single-element slice
+// literals of the same value.
+func sameSliceSource(a, b ssa.Value) bool {
+	if sameValue(a, b) {
+		return true
+	}
+	ea, ok1 := sliceLitElems(a)
+	eb, ok2 := sliceLitElems(b)
+	if ok1 && ok2 && len(ea) == len(eb) && len(ea) > 0 {
+		for i := range ea {
+			if !sameValue(ea[i], eb[i]) {
+				return false
+			}
+		}
+		return true
+	}
+	return false
 }
